@@ -1,24 +1,253 @@
-use simcore::exec;
+//! simctl - deterministic simulation of microscpi with fault injection.
+//!
+//!   simctl check <ID> [--tier quick|thorough] [--budget N] [--workers N] [--out DIR]
+//!   simctl replay <file>
+//!   simctl digest <ID> [--count N] [--workers N]      (determinism self test)
+//!   simctl show <ID> <index>                           (print scenario i of the batch)
+use std::process::exit;
+
+mod gen;
+mod known;
+mod props;
+mod runner;
+mod scenario;
 
 #[global_allocator]
 static GLOBAL: simcore::alloc::CountingAlloc = simcore::alloc::CountingAlloc;
 
-mod dispatch {
+pub mod dispatch {
     include!(concat!(env!("OUT_DIR"), "/dispatch.rs"));
+}
+
+use runner::{Prop, Stats, Verdict};
+use scenario::Scenario;
+
+fn arg_after<'a>(args: &'a [String], key: &str) -> Option<&'a str> {
+    args.iter().position(|a| a == key).and_then(|i| args.get(i + 1)).map(|s| s.as_str())
+}
+
+fn verif_seed() -> u64 {
+    std::env::var("VERIF_SEED").ok().and_then(|s| s.trim().parse::<u64>().ok()).unwrap_or(20260926)
 }
 
 fn main() {
     simcore::install_panic_hook();
     let args: Vec<String> = std::env::args().collect();
-    let stream = args.get(1).map(|s| s.replace("\\n", "\n")).unwrap_or("FOO\nSYST:FOO;BAR\n*IDN?\n".into());
-    let n: usize = args.get(2).and_then(|s| s.parse().ok()).unwrap_or(64);
-    let mut ex = exec::Exec::new(0, 0, n, exec::Mode::Process, stream.into_bytes());
-    ex.susp = vec![1, 0, 2, 1];
-    let t = std::time::Instant::now();
-    let out = dispatch::execute(&ex);
-    let el = t.elapsed();
-    for (i, e) in out.events.iter().enumerate() {
-        println!("{i:3} {e:?}");
+    let cmd = args.get(1).map(|s| s.as_str()).unwrap_or("");
+    match cmd {
+        "check" => cmd_check(&args),
+        "replay" => cmd_replay(&args),
+        "digest" => cmd_digest(&args),
+        "show" => cmd_show(&args),
+        _ => {
+            eprintln!("usage: simctl check <ID> [--tier quick|thorough] | replay <file> | digest <ID> | show <ID> <index>");
+            exit(2);
+        }
     }
-    println!("{:?} {:?}", exec::Out { events: vec![], ..out }, el);
+}
+
+fn prop_or_die(id: Option<&String>) -> &'static dyn Prop {
+    match id.and_then(|i| props::by_id(i)) {
+        Some(p) => p,
+        None => {
+            eprintln!("unknown property {id:?}; claimed: {:?}", props::all().iter().map(|p| p.id()).collect::<Vec<_>>());
+            exit(2);
+        }
+    }
+}
+
+fn cmd_check(args: &[String]) {
+    let p = prop_or_die(args.get(2));
+    let tier = arg_after(args, "--tier").map(|s| s.to_string()).or(std::env::var("VERIF_TIER").ok()).unwrap_or("quick".into());
+    let thorough = tier == "thorough";
+    let tier = if thorough { "thorough" } else { "quick" };
+    let budget = arg_after(args, "--budget").and_then(|s| s.parse().ok()).unwrap_or(p.budget(thorough));
+    let workers = arg_after(args, "--workers").and_then(|s| s.parse().ok()).unwrap_or(16usize).max(1);
+    let out = arg_after(args, "--out").unwrap_or("/verif").to_string();
+    let seed = verif_seed();
+    println!("simctl check {} tier={tier} VERIF_SEED={seed} budget={budget} workers={workers} tree_seed={}", p.id(), simcore::spec::TREE_SEED);
+
+    let known = known::load(&format!("{out}/KNOWN_FINDINGS.txt"));
+    let mut res = runner::run_batch(p, seed, thorough, budget, workers, &out);
+    let mut violations = 0u64;
+    let mut known_hits = 0u64;
+    let mut exit_code = 0;
+
+    // one-off obligations
+    let mut extra_stats = Stats::default();
+    if let Err((class, detail)) = p.extra(&mut extra_stats) {
+        violations += 1;
+        let path = format!("{out}/replays/{}-extra-{class}.replay", p.id());
+        let _ = std::fs::create_dir_all(format!("{out}/replays"));
+        let _ = std::fs::write(&path, format!("microscpi-sim-replay v1\n# obligation outside the seeded search\nprop={}\nseed=0\nclass={class}\niface=0\ncap=0\nn=0\nstream=-\nknob extra=1\nend\n", p.id()));
+        println!("VIOLATION property={} replay={path}", p.id());
+        println!("  class={class}\n  {detail}");
+        exit_code = 1;
+    }
+    for (k, v) in extra_stats.counters {
+        *res.stats.counters.entry(k).or_insert(0) += v;
+    }
+
+    if let Some((idx, sc, class, detail)) = res.violation.take() {
+        println!("violation at scenario index {idx} (seed {}), class={class}; minimising ...", sc.seed);
+        let (mut min, evals) = runner::minimise(p, &sc, &class);
+        min.class = class.clone();
+        let mut st = Stats::default();
+        let detail_min = match p.check(&min, &mut st) {
+            Verdict::Violation { detail, .. } => detail,
+            _ => detail.clone(),
+        };
+        if let Some(k) = known.iter().find(|k| k.matches(p.id(), &class, &min, &detail_min)) {
+            println!("KNOWN-FINDING: property={} {}", p.id(), k.text);
+            known_hits += 1;
+        } else {
+            violations += 1;
+            let path = format!("{out}/replays/{}-{}.replay", p.id(), sc.seed);
+            let _ = std::fs::create_dir_all(format!("{out}/replays"));
+            let mut text = min.to_text();
+            text.push_str(&format!("# minimised with {evals} evaluations from scenario index {idx}\n"));
+            for l in detail_min.lines() {
+                text.push_str(&format!("# {l}\n"));
+            }
+            if let Err(e) = std::fs::write(&path, text) {
+                eprintln!("cannot write replay file {path}: {e}");
+                exit(2);
+            }
+            println!("VIOLATION property={} replay={path}", p.id());
+            println!("  class={class}");
+            println!("  stream: {}", scenario::show(&min.bytes()));
+            println!("  {detail_min}");
+            exit_code = 1;
+        }
+    }
+
+    let total = res.evaluations.max(1);
+    let skipped_pct = 100.0 * res.skipped as f64 / total as f64;
+    println!(
+        "{}: evaluations={} held={} skipped={} ({skipped_pct:.1}%) distinct={} distinct_nontrivial={} states={} wall={:.1}s ({:.0}/s)",
+        p.id(),
+        res.evaluations,
+        res.evaluations - res.skipped - violations.min(1),
+        res.skipped,
+        res.stats.sigs.len(),
+        res.stats.nontrivial_sigs.len(),
+        res.stats.states.len(),
+        res.wall_s,
+        res.evaluations as f64 / res.wall_s.max(1e-9)
+    );
+    for (k, v) in &res.stats.counters {
+        println!("  {k} = {v}");
+    }
+    for pr in p.probes() {
+        if res.stats.get(pr) == 0 && exit_code == 0 {
+            println!("WARNING: reach probe {pr} stayed at zero");
+        }
+    }
+    if skipped_pct > 20.0 {
+        println!("WARNING: {skipped_pct:.1}% of the scenarios were skipped because a precondition measured on the real code failed");
+    }
+    let e = runner::EvidenceInput { prop: p, tier, seed, res: &res, violations, known: known_hits };
+    if let Err(err) = runner::write_evidence(&out, &e) {
+        eprintln!("cannot write evidence: {err}");
+        exit(2);
+    }
+    exit(exit_code);
+}
+
+fn cmd_replay(args: &[String]) {
+    let path = match args.get(2) {
+        Some(p) => p,
+        None => {
+            eprintln!("usage: simctl replay <file>");
+            exit(2)
+        }
+    };
+    let text = match std::fs::read_to_string(path) {
+        Ok(t) => t,
+        Err(e) => {
+            eprintln!("cannot read {path}: {e}");
+            exit(2)
+        }
+    };
+    let sc = match Scenario::from_text(&text) {
+        Ok(s) => s,
+        Err(e) => {
+            eprintln!("cannot parse {path}: {e}");
+            exit(2)
+        }
+    };
+    let p = prop_or_die(Some(&sc.prop));
+    if sc.knob("extra").is_some() {
+        let mut st = Stats::default();
+        match p.extra(&mut st) {
+            Err((class, detail)) if class == sc.class => {
+                println!("VIOLATION property={} replay={path}\n  class={class}\n  {detail}", p.id());
+                exit(1);
+            }
+            other => {
+                println!("replay: obligation result {other:?}, expected class {}", sc.class);
+                exit(0);
+            }
+        }
+    }
+    let mut st = Stats::default();
+    match p.check(&sc, &mut st) {
+        Verdict::Violation { class, detail } => {
+            if sc.class.is_empty() || class == sc.class {
+                println!("VIOLATION property={} replay={path}", p.id());
+                println!("  class={class}");
+                println!("  stream: {}", scenario::show(&sc.bytes()));
+                println!("  {detail}");
+                exit(1);
+            } else {
+                println!("replay: violation of class {class}, file expects {}", sc.class);
+                println!("  {detail}");
+                exit(1);
+            }
+        }
+        Verdict::Held { .. } => {
+            println!("replay: property {} held on this scenario (expected class {})", p.id(), sc.class);
+            exit(0);
+        }
+        Verdict::Skip(why) => {
+            println!("replay: scenario skipped ({why})");
+            exit(0);
+        }
+    }
+}
+
+/// Determinism self test: a digest over every event of every execution of
+/// the first `count` scenarios; must be identical across processes and
+/// worker counts.
+fn cmd_digest(args: &[String]) {
+    let p = prop_or_die(args.get(2));
+    let count: u64 = arg_after(args, "--count").and_then(|s| s.parse().ok()).unwrap_or(20_000);
+    let workers: usize = arg_after(args, "--workers").and_then(|s| s.parse().ok()).unwrap_or(16);
+    let thorough = arg_after(args, "--tier") == Some("thorough");
+    let seed = verif_seed();
+    let res = runner::run_batch(p, seed, thorough, count, workers, "/nonexistent");
+    let mut h = simcore::rng::Fnv::new();
+    h.u64(res.evaluations);
+    h.u64(res.skipped);
+    for (k, v) in &res.stats.counters {
+        h.bytes(k.as_bytes());
+        h.u64(*v);
+    }
+    for s in &res.stats.sigs {
+        h.u64(*s);
+    }
+    for s in &res.stats.states {
+        h.u64(*s);
+    }
+    println!("digest {} seed={seed} count={count} = {:016x} violation={:?}", p.id(), h.finish(), res.violation.as_ref().map(|v| (v.0, v.2.clone())));
+}
+
+fn cmd_show(args: &[String]) {
+    let p = prop_or_die(args.get(2));
+    let idx: u64 = args.get(3).and_then(|s| s.parse().ok()).unwrap_or(0);
+    let thorough = arg_after(args, "--tier") == Some("thorough");
+    let sc = p.generate(simcore::rng::derive(verif_seed(), idx), thorough);
+    print!("{}", sc.to_text());
+    let mut st = Stats::default();
+    println!("# verdict: {:?}", p.check(&sc, &mut st));
 }
